@@ -10,6 +10,8 @@ A configuration (printed by TLC from specs/exporttruth/SocConfigs.tla) is a dict
   caw 14..16, cpu "none"|"stub", ctrl 0|1, timer 0|1, ident 0|1, rsv0 0|1,
   csrb (CSR origin in 64 KiB blocks), mems [[name, block, offset, size, kind "ram"|"rom"], ...],
   ps [[loc, irq, memw, memd, memro, const, [[kind, size, fields, atomic, n], ...]], ...]
+  romsrc "words"|"file"|"init" (how the ROM region gets its contents), rome "little"|"big" (endianness of the
+  CPU the ROM image is packed for)
 
 Values wider than 31 bits are recorded as little-endian byte lists, bus addresses as [hi16, lo16].
 The access model (hw/common.h): csr_read_simple / csr_write_simple are 32-bit accesses at 4-byte aligned
@@ -110,7 +112,7 @@ def _make_periph(desc, cdw):
     return m
 
 
-def _stub_cpu_cls(csr_origin):
+def _stub_cpu_cls(csr_origin, endian="little"):
     from migen import Signal
     from litex.soc.cores.cpu import CPU
 
@@ -122,7 +124,7 @@ def _stub_cpu_cls(csr_origin):
         human_name = "verification stub"
         variants = ["standard"]
         data_width = 32
-        endianness = "little"
+        endianness = endian
         gcc_triple = "none"
         gcc_flags = ""
         linker_output_format = "none"
@@ -150,7 +152,7 @@ class Built:
     pass
 
 
-def build_soc(cfg):
+def build_soc(cfg, scratch=None):
     """-> Built (soc, master, peripherals ...); raises whatever LiteX raises for a configuration it refuses"""
     _quiet()
     from migen import Signal
@@ -174,7 +176,7 @@ def build_soc(cfg):
 
     cpu_type = None
     if cfg["cpu"] == "stub":
-        cpumod.CPUS["verifstub"] = _stub_cpu_cls(csr_origin)
+        cpumod.CPUS["verifstub"] = _stub_cpu_cls(csr_origin, cfg.get("rome", "little"))
         cpu_type = "verifstub"
     plat = GenericPlatform("verif", io=[], name="verif")
     sram = [m for m in cfg["mems"] if m[0] == "sram"]
@@ -192,15 +194,34 @@ def build_soc(cfg):
     b.cfg = cfg
     b.soc = soc
     b.rom_init = {}
+    b.rom_file = {}
     rnd = random.Random(cfg.get("id", 0) * 7919 + 14)
+    romsrc = cfg.get("romsrc", "words")
     for name, block, off, size, kind in cfg["mems"]:
         if name == "sram":
             continue
         if kind == "rom":
             nwords = size // (cfg["dw"] // 8)
             init = [rnd.getrandbits(cfg["dw"]) | 1 for _ in range(nwords)]
+            if romsrc != "words":
+                # a binary file (its length is usually not a multiple of the bus word) packed as the Builder packs
+                # the BIOS: get_mem_data(file, data_width = bus data width, endianness = the CPU's)
+                from litex.soc.integration.common import get_mem_data
+                data = bytes(rnd.randrange(1, 256) for _ in range(rnd.randint(size // 2, size)))
+                fd, path = tempfile.mkstemp(prefix="rom", suffix=".bin", dir=scratch or os.environ.get("VERIF_SCRATCH", "/var/tmp"))
+                try:
+                    with os.fdopen(fd, "wb") as f:
+                        f.write(data)
+                    init = get_mem_data(path, data_width=soc.bus.data_width, endianness=soc.cpu.endianness)
+                finally:
+                    os.unlink(path)
+                b.rom_file[name] = list(data)
             b.rom_init[name] = init
-            soc.add_rom(name, origin=block * BLOCK + off, size=size, contents=init)
+            if romsrc == "init":
+                soc.add_rom(name, origin=block * BLOCK + off, size=size)
+                soc.init_rom(name, contents=init, auto_size=False)
+            else:
+                soc.add_rom(name, origin=block * BLOCK + off, size=size, contents=init)
         else:
             soc.add_ram(name, origin=block * BLOCK + off, size=size)
     b.periphs = []
@@ -222,7 +243,10 @@ def build_soc(cfg):
         master = axi.AXIInterface(data_width=cfg["dw"], address_width=32, id_width=1)
     soc.bus.add_master("verifmaster", master=master)
     b.master = master
-    soc.finalize()
+    import contextlib
+    import io
+    with contextlib.redirect_stdout(io.StringIO()):      # csr_bus.SRAM prints a remark about paged memories
+        soc.finalize()
     return b
 
 
@@ -381,7 +405,14 @@ def parse_svd(text):
         name = p.findtext("name")
         regs = []
         for r in p.iter("register"):
-            regs.append((r.findtext("name"), int(r.findtext("addressOffset"), 16), r.findtext("description") or ""))
+            flds = []
+            for f in r.iter("field"):
+                m = re.fullmatch(r"\[(-?\d+):(-?\d+)\]", f.findtext("bitRange") or "")
+                if not m:
+                    raise ParseError("SVD field without bitRange in %s" % r.findtext("name"))
+                flds.append([(f.findtext("name") or "").lower(), int(f.findtext("lsb")), int(f.findtext("msb")),
+                             int(m.group(2)), int(m.group(1))])
+            regs.append((r.findtext("name"), int(r.findtext("addressOffset"), 16), r.findtext("description") or "", flds))
         irq = None
         it = p.find("interrupt")
         if it is not None:
@@ -560,6 +591,11 @@ def hw_registry(b):
                     ro, mem = mem
                 mem.verif_ro = bool(ro) or bool(getattr(mem, "bus_read_only", False))
                 wins[name + "_" + mem.name_override] = mem
+    # the <mem>_page register LiteX adds for a CSR memory deeper than a page belongs to the memory's bank
+    for name, memory, mapaddr, mmap in b.soc.csr_bankarray.srams:
+        for c in mmap.get_csrs():
+            regs[name + "_" + c.name] = c
+            wins[name + "_" + memory.name_override].verif_page = c
     return regs, wins
 
 
@@ -592,9 +628,11 @@ def experiment(cfg, scratch, engine="compiled"):
     """build, publish, access, record -> facts (JSON-ready dict).  engine "compiled": the harness's
     compiled FHDL stepper; "ref": litex.gen.sim.run_simulation (the repository's reference simulator)"""
     from litex.gen.sim import run_simulation
+    cfg.setdefault("romsrc", "words")
+    cfg.setdefault("rome", "little")
     facts = {"id": cfg["id"], "cfg": cfg, "built": 1, "err": ""}
     try:
-        b = build_soc(cfg)
+        b = build_soc(cfg, scratch)
     except BaseException as ex:
         import sys as _sys
         import traceback as _tb
@@ -627,8 +665,9 @@ def experiment(cfg, scratch, engine="compiled"):
         if n not in names:
             names.append(n)
     svdwords = {}      # reg name -> [[word index or -1, A]]
+    svdflds = {}       # reg name -> [[first bit of the word, field name, lsb, msb, bitRange lsb, bitRange msb]]
     for pname, p in svd["periph"].items():
-        for rname, off, desc in p["regs"]:
+        for rname, off, desc, sflds in p["regs"]:
             full = pname + "_" + rname.lower()
             m = re.match(r"Bits? (\d+)(?:-\d+)? of `(\w+)`", desc)
             if m:
@@ -640,8 +679,10 @@ def experiment(cfg, scratch, engine="compiled"):
                 tail = rname.lower()[len(short):] if rname.lower().startswith(short) else ""
                 svdwords.setdefault(reg, []).append([int(tail) if tail.isdigit() else -1, int(m.group(1)),
                                                      A(p["base"] + off)])
+                svdflds.setdefault(reg, []).extend([int(m.group(1))] + f for f in sflds)
             else:
                 svdwords.setdefault(full, []).append([0, 0, A(p["base"] + off)])
+                svdflds.setdefault(full, []).extend([0] + f for f in sflds)
     own = {}
     for pname, m in b.periphs:
         for rname, kind, c in m.verif_regs:
@@ -663,6 +704,7 @@ def experiment(cfg, scratch, engine="compiled"):
              "ty": {"json": js["csr_registers"][n]["type"] if n in js["csr_registers"] else "",
                     "csv": csv["csr_register"][n][2] if n in csv["csr_register"] else ""},
              "svd": sorted(svdwords.get(n, [])),
+             "svdf": sorted(svdflds.get(n, [])),
              "W": 0, "racc": [], "wacc": [], "hasw": 0,
              "want": [], "v": [], "wops": [], "before": [], "after": [], "changed": [], "wdone": 0,
              "rops": [], "truth": [], "rdone": 0, "flds": [], "skip": 0}
@@ -731,7 +773,9 @@ def experiment(cfg, scratch, engine="compiled"):
                       "csv": A(int(csv["memory_region"][n][1])) if n in csv["memory_region"] else A(None),
                       "svd": A(svd["mems"][n][1]) if n in svd["mems"] else A(None),
                       "ld": A(ld[n][1]) if n in ld else A(None)},
-             "probes": []}
+             "probes": [],
+             "img": {"src": cfg["romsrc"] if n in b.rom_file else "none", "e": cfg["rome"],
+                     "file": b.rom_file.get(n, []), "rd": []}}
         g["_mem"] = mem
         regions.append(g)
     facts["regions"] = regions
@@ -748,7 +792,8 @@ def experiment(cfg, scratch, engine="compiled"):
         mem = hwwins.get(w["name"])
         w["cells"] = []
         if mem is not None:
-            for k in (0, mem.depth - 1):
+            w["ks"] = sorted({0, mem.depth // 2 + (1 if mem.depth > 4 else 0), mem.depth - 1})
+            for k in w["ks"]:
                 watch.append(("cell", mem, k, 0, nbytes_of(mem.width)))
                 w["cells"].append(len(watch))
 
@@ -928,29 +973,64 @@ def experiment(cfg, scratch, engine="compiled"):
                 for f in r["flds"]:
                     sig = getattr(c.fields, f["name"])
                     f["sig"] = to_bytes((yield sig), nbytes_of(len(sig)))
-        # CSR memory windows: word k of the memory at base + 4*k (memories not wider than the CSR bus)
+        # CSR memory windows: memory word k = n consecutive CSR words (most significant first) from CSR word k*n
+        # of the window; CSR word x at base + 4*(x mod page words), page x div page words in <mem>_page
         for w in wins:
             mem = hwwins.get(w["name"])
-            if mem is None or w["a"]["h"] == A(None) or mem.width > cdw:
+            if mem is None or w["a"]["h"] == A(None):
                 continue
             base = unA(w["a"]["h"])
             if drv.dead:
                 w["skip"] = 1
                 continue
-            for which, k in (("first", 0), ("last", mem.depth - 1)):
-                p = {"which": which, "k": k, "addr": A(base + 4 * k), "we": 0, "data": [], "resp": -1,
-                     "cell": [], "changed": [], "rd": [], "rresp": -1}
+            n = (mem.width + cdw - 1) // cdw
+            pw = cfg["paging"] // 4
+            pagecsr = getattr(mem, "verif_page", None)
+            pagereg = None
+            if pagecsr is not None:
+                pagereg = [r for r in regs if hwregs.get(r["name"]) is pagecsr]
+                pagereg = pagereg[0] if pagereg else None
+            nbw = nbytes_of(mem.width)
+            for k, own in zip(w["ks"], w["cells"]):
+                x = k * n
+                p = {"k": k, "own": own, "page": -1, "pagereg": -1, "we": 0, "data": [], "wops": [],
+                     "cell": [], "changed": [], "rops": []}
+                if mem.depth * n > pw:
+                    p["page"] = x // pw
+                    if pagereg is not None and pagereg["hasw"] and len(pagereg["wacc"]) == 1:
+                        # the page is chosen through the published accessor of the page register
+                        yield from simple(1, pagereg["wacc"][0][1], p["page"])
+                        yield from settle(3)
+                if pagecsr is not None:
+                    p["pagereg"] = (yield pagecsr.storage)
+                a0 = base + 4 * (x % pw)
                 if not w["ro"]:
                     before = yield from peek_watch()
-                    d = _distinct_value(rnd, mem.width, avoid=before[w["cells"][0 if which == "first" else 1] - 1])
-                    resp, _ = yield from simple(1, p["addr"], d)
+                    d = _distinct_value(rnd, mem.width, avoid=before[own - 1])
+                    for m in range(n):
+                        chunk = (d >> (cdw * (n - 1 - m))) & 0xffffffff
+                        resp, _ = yield from simple(1, A(a0 + 4 * m), chunk)
+                        p["wops"].append([A(a0 + 4 * m), to_bytes(chunk, 4), resp])
                     yield from settle(3)
                     after = yield from peek_watch()
-                    p.update({"we": 1, "data": to_bytes(d, 4), "resp": resp, "changed": diff(before, after)})
-                p["cell"] = to_bytes((yield mem[k]), 4)
-                resp, rd = yield from simple(0, p["addr"])
-                p["rd"], p["rresp"] = to_bytes(rd, 4), resp
+                    p.update({"we": 1, "data": to_bytes(d, nbw), "changed": diff(before, after)})
+                p["cell"] = to_bytes((yield mem[k]), nbw)
+                for m in range(n):
+                    resp, rd = yield from simple(0, A(a0 + 4 * m))
+                    p["rops"].append([A(a0 + 4 * m), to_bytes(rd, 4), resp])
                 w["probes"].append(p)
+        # ROM images: byte k of the file at base + k for a CPU of the image's endianness
+        for g in regions:
+            img = g["img"]
+            if img["src"] == "none" or g["base"]["memh"] == A(None) or drv.dead:
+                continue
+            base = unA(g["base"]["memh"])
+            L = len(img["file"])
+            ks = sorted(set(list(range(min(L, 9))) + list(range(max(0, L - 9), L)) + [rnd.randrange(L) for _ in range(10)]))
+            for k in ks:
+                pk = k if img["e"] == "little" else (k - k % nbus) + (nbus - 1 - k % nbus)
+                resp, rd = yield from drv.access(0, base + pk, 0, 1)
+                img["rd"].append({"k": k, "pa": A(base + pk), "b": rd, "resp": resp})
         # interrupts: enable everything in one event manager, set its sources pending, read the vector
         if irqs:
             from migen.util.misc import xdir
@@ -1016,7 +1096,8 @@ def experiment(cfg, scratch, engine="compiled"):
     bases = [v for v in js["csr_bases"].values()]
     facts["gap0"] = int(bool(bases) and "csr" in js["memories"] and min(bases) != js["memories"]["csr"]["base"])
     facts["accesses"] = sum(len(r["wops"]) + len(r["rops"]) for r in regs) + \
-        sum(2 * len(w["probes"]) for w in wins) + sum(2 * len(g["probes"]) for g in regions)
+        sum(len(p["wops"]) + len(p["rops"]) for w in wins for p in w["probes"]) + sum(2 * len(g["probes"]) for g in regions) + \
+        sum(len(g["img"]["rd"]) for g in regions)
     return facts
 
 
@@ -1126,9 +1207,9 @@ def image_case(case, scratch):
                  "words": [], "lanes": []}
         try:
             words = get_mem_data(arg, data_width=dw, endianness=e, offset=off)
-        except AssertionError as ex:
+        except (AssertionError, IndexError, ValueError) as ex:      # refusing is judged too (ImgLanes)
             facts["refused"] = 1
-            facts["err"] = "AssertionError"
+            facts["err"] = type(ex).__name__
             return facts
         facts["words"] = [to_bytes(w, nb) for w in words]
         if any(w >> dw for w in words):
